@@ -429,14 +429,17 @@ def eval_cases(ctx, name, cases, outs, shard=40, strict=False):
     return res.get("MM", []), res["SM"]
 
 
-def ddmin(items, fails, budget=40, keep_first=0):
-    """delta debugging on a list; `fails(list)` -> bool; the first keep_first items are kept"""
+def ddmin(items, fails, budget=40, keep_first=0, seconds=100):
+    """delta debugging on a list; `fails(list)` -> bool; the first keep_first items are kept;
+    stops after `budget` attempts or `seconds` of wall time"""
+    import time as _t
+    deadline = _t.time() + seconds
     items = list(items)
     chunk = max(1, (len(items) - keep_first) // 2)
-    while chunk >= 1 and budget > 0:
+    while chunk >= 1 and budget > 0 and _t.time() < deadline:
         i = keep_first
         changed = False
-        while i < len(items) and budget > 0:
+        while i < len(items) and budget > 0 and _t.time() < deadline:
             cand = items[:i] + items[i + chunk:]
             budget -= 1
             if len(cand) > keep_first and fails(cand):
